@@ -142,6 +142,10 @@ def analyse(repo):
         if body is None:
             unrec.append("%s: fn %s not found in %s" % (key, fn, path))
         else:
+            if key == "clear":
+                # which variant of the cascade is in the tree is read independently of the rest of the body, so that an
+                # unrelated edit of `clear` (unrecognised shape: fails closed below) does not also flip the schedule model
+                variant["clear_resets"] = bool(re.search(r"let outer = CLOSE_COUNT\.try_with\(\|count\| count\.replace\(0\)\); let _ = subscriber\.try_close\(parent\);", body))
             alts = shape if isinstance(shape, list) else [shape]
             m = None
             for vi, alt in enumerate(alts):
@@ -170,7 +174,7 @@ def main(repo, _unused=None):
     for n in CONSTS:
         lines.append("Definition %s : N := %d%%N." % (n, consts[n]))
     lines.append("(* Clear for DataInner resets CLOSE_COUNT around the cascade's try_close(parent) (fixes/F51.patch applied) *)")
-    lines.append("Definition clear_resets_close_count : bool := %s." % ("true" if variant.get("clear") == 1 else "false"))
+    lines.append("Definition clear_resets_close_count : bool := %s." % ("true" if variant.get("clear_resets") else "false"))
     lines.append("")
     lines.append("Definition shapes : list (string * bool) :=\n  [%s]." % ";\n   ".join("(%s, %s)" % (coq_str(k), "true" if ok else "false") for k, ok in flags))
     lines.append("")
